@@ -9,7 +9,8 @@ Model: the operations of `Model/WorldOps*.lean` return the new world and an answ
 everything observable (trees with values, attributes, comments, file sets; files; path index; reverse
 reference map).  Proved, for every world and all arguments: an `err` answer comes with the SAME world,
 for create, named create, remove, rename, set/remove character data, set attribute (both forms),
-insert/remove text item and deep copy.
+insert/remove text item, deep copy, add_to_file, remove_from_file and set_version; a load that is rejected by the
+tokenizer or the parser into a model without files leaves the world as it was (`C11_rejected_first_load`).
 Not covered by a theorem, and said so: `set_reference_target` and `move_element_here` are the two
 places where the Rust code mutates before its last fallible step (DEST attribute and reverse map
 before the final `set_character_data`; unlinking before `make_unique_item_name`); the model reproduces
@@ -18,6 +19,9 @@ those late failures are reachable is searched by the oracle run. Loads (lexer/pa
 failures) are covered by the merge scenario on the real library.
 -/
 import AutosarVerif.Lemmas.WorldOps
+import AutosarVerif.Lemmas.FileOps
+import AutosarVerif.Lemmas.Compat
+import AutosarVerif.Model.Load
 
 namespace AV.C11
 open AV.W
@@ -45,6 +49,27 @@ theorem C11_remove_text (w : World) (x pos : Nat) :
     (opRmText S w x pos).2 = .err → (opRmText S w x pos).1 = w := opRmText_err_frame S w x pos
 theorem C11_copy (w : World) (p x : Nat) (pos : Option Nat) :
     (opCopy S V w p x pos).2 = .err → (opCopy S V w p x pos).1 = w := opCopy_err_frame S V w p x pos
+
+theorem C11_add_to_file (w : World) (x f : Nat) :
+    (opAddFile S w x f).2 = .err → (opAddFile S w x f).1 = w := opAddFile_err_frame S w x f
+theorem C11_remove_from_file (w : World) (x f : Nat) :
+    (opRmFromFile S w x f).2 = .err → (opRmFromFile S w x f).1 = w := opRmFromFile_err_frame S w x f
+theorem C11_set_version (w : World) (f ver : Nat) :
+    (opSetVersion S w f ver).2 = .err → (opSetVersion S w f ver).1 = w := opSetVersion_err_frame S w f ver
+/-- a load that is not accepted (tokenizer error, parser error, duplicate file name) leaves the world as it was -/
+theorem C11_rejected_first_load (nmAutosar : Nat) (w : World) (k : Nat) (name : Bytes) (strict : Bool) (buf : Bytes) (t : String) :
+    (opLoad S V nmAutosar w k name strict buf).2 = .no t → (opLoad S V nmAutosar w k name strict buf).1 = w := by
+  unfold opLoad
+  split
+  · intro _; rfl
+  · split
+    · intro _; rfl
+    · split
+      · intro _; rfl
+      · dsimp only
+        split
+        · intro _; rfl
+        · intro h; cases h
 
 /-! non-vacuity: on the empty world every one of these calls does answer `err` -/
 example : (opCreate S V { models := [], nextId := 0, nextFile := 0, dead := [] } 0 0 none).2 = .err := by
